@@ -261,11 +261,6 @@ func init() {
 				if sp.Refresh != "none" {
 					b = 1
 				}
-				if tier == "thorough" && sp.Refresh != "none" && len(sp.Clients) <= 3 {
-					// two client threads (plus the refresher): one deviation deeper under the first base strategy
-					items = append(items, specItemsMixed("C10", sp, 2, 1, []int{mcrt.StratFIFO, mcrt.StratNewest}, nil, c10Oracle)...)
-					continue
-				}
 				items = append(items, specItems("C10", sp, b, []int{mcrt.StratFIFO, mcrt.StratNewest}, nil, c10Oracle)...)
 			}
 			// race half: the same kind of programs, plus getters during rendering, shutdown and after it, in the race variant
